@@ -4,6 +4,7 @@ honoured for attrs classes and dataclasses alike.  The JSON converter is also co
 (Model/Preconf.v: the library's data model and the converter's post-processing of the unstructured form)."""
 import dataclasses
 import importlib
+import copy
 import random
 import re
 
@@ -174,6 +175,7 @@ def check_c16(v: Verdict, n_worlds: int):
                         add_json_case(w, conv, t, x, cases, meta, desc)
         user_hooks(v, rng, w, hist)
     quoted_annotations(v, hist)
+    namedtuple_battery(v, rng, hist, max(12, 2 * n_worlds))
     run_json_model(v, cases, meta)
     v.coverage["input_distribution"] = hist
 
@@ -197,6 +199,48 @@ class QHolder:
 class QDHolder:
     n: int
     leaf: "QLeaf"
+
+
+def namedtuple_battery(v, rng, hist, n):
+    """typed NamedTuples (1-4 fields of pass-through and non-pass-through leaf types, with and without defaults) at top level, in a
+    list, in a mapping and as the attribute of an attrs class / a dataclass, through every format: dumps never fails and
+    loads(dumps(x, T), T) == x (a NamedTuple again)"""
+    import collections
+    from typing import Dict, List, NamedTuple, Optional
+    LEAF = [(int, [0, 3, -7]), (float, [0.0, 2.5]), (bool, [True, False]), (str, ["", "ab"]), (Optional[int], [None, 4]), (List[int], [[], [1, 2]])]
+    PASS = LEAF[:3]
+    hist["namedtuple_checks"] = 0
+    hist["namedtuple_all_passthrough"] = 0
+    for i in range(n):
+        k = rng.randint(1, 4)
+        all_pass = rng.random() < 0.5               # every field a type the format's own encoder takes as it is
+        hist["namedtuple_all_passthrough"] += all_pass
+        fields = [(f"f{j}",) + rng.choice(PASS if all_pass else LEAF) for j in range(k)]
+        NTc = NamedTuple(f"PNT{i}", [(n_, ty) for n_, ty, _vals in fields])
+        HolderA = attrs.make_class(f"PHA{i}", {"p": attrs.field(type=NTc), "n": attrs.field(type=int, default=1)})
+        HolderD = dataclasses.make_dataclass(f"PHD{i}", [("p", NTc), ("n", int, dataclasses.field(default=1))])
+        x0 = NTc(*[copy.deepcopy(rng.choice(vals)) for _n, _ty, vals in fields])
+        x1 = NTc(*[copy.deepcopy(rng.choice(vals)) for _n, _ty, vals in fields])
+        positions = [("top level", NTc, x0), ("List[NT]", List[NTc], [x0, x1]), ("Dict[str, NT]", Dict[str, NTc], {"a": x0}),
+                     ("attrs attribute", HolderA, HolderA(x0, 2)), ("dataclass attribute", HolderD, HolderD(x1, 3))]
+        for f, m in FORMATS.items():
+            conv = m.make_converter()
+            for label, T, x in positions:
+                hist["namedtuple_checks"] += 1
+                desc = {"lane": "PRE/C16", "format": f, "position": label, "namedtuple_fields": [(n_, str(ty)) for n_, ty, _v in fields], "value": repr(x)}
+                v.count(repr(("namedtuple", f, label, desc["namedtuple_fields"], repr(x))), True)
+                try:
+                    data = conv.dumps(x, unstructure_as=T)
+                except Exception as e:
+                    v.violation("dumps failed for a NamedTuple value", {**desc, "raised": repr(e)[:300]})
+                    continue
+                try:
+                    y = conv.loads(data, T)
+                except Exception as e:
+                    v.violation("loads failed on what dumps produced for a NamedTuple value", {**desc, "dumped": repr(data)[:300], "raised": repr(e)[:300]})
+                    continue
+                if not deep_same(y, x):
+                    v.violation("loads(dumps(x, T), T) differs from x (NamedTuple)", {**desc, "dumped": repr(data)[:300], "loaded": repr(y)[:300]})
 
 
 def quoted_annotations(v, hist):
